@@ -1,0 +1,20 @@
+//go:build verif
+
+package pubsubmon
+
+// Contracts for the govc verifier (/verif). Comment-only.
+
+// the peerset provider the monitor was constructed with
+//@ fnvalue Monitor.peers(ctx)
+//@   modifies nothing
+
+// "the monitor reports at most one metric per peer - the most recently received - and only if it
+// is valid, unexpired and, when the peerset is known, from a current member"
+//@ func (mon *Monitor) LatestMetrics
+//@   property C09 C03
+//@   implements ipfscluster.PeerMonitor.LatestMetrics
+//@   requires storeInv(mon.metrics)
+//@   ensures [valid-unexpired] forall i int :: 0 <= i && i < len(res) ==> res[i] != nil && res[i].Valid && !expiredAt(res[i], old(now))
+//@   ensures [latest-received] forall i int :: 0 <= i && i < len(res) ==> haskey(mon.metrics.byName, name) && haskey(mon.metrics.byName[name], res[i].Peer) && res[i] == winLatest[mon.metrics.byName[name][res[i].Peer]]
+//@   ensures [members-only] mon.peers != nil && len(res) > 0 ==> forall i int :: 0 <= i && i < len(res) ==> in(res[i].Peer, elems(peers))
+//@   modifies nothing
